@@ -15,7 +15,7 @@ from __future__ import annotations
 import json
 
 from mc import boot, par
-from mc.prog import CompSpec, Harness, Interp, ModelError, Program, strip_markers
+from mc.prog import SIDE_KINDS, SIDE_POS, CompSpec, Harness, Interp, ModelError, Program, side_attrs, strip_markers
 from mc.proggen import Gen, Profile
 
 PID = "C01"
@@ -231,8 +231,12 @@ def family_programs():
                             yield Program(label(page, "P"), comps, dict(PAGE_CTX))
 
 
+SIDE_VARIANTS = tuple((pos, kind) for pos in SIDE_POS for kind in SIDE_KINDS)
+SIDE_VARIANTS_QUICK = (("before", "fail_child"), ("after", "fail"))
+
+
 def family_worker(w, W, payload):
-    (mode,) = payload
+    mode, tier = payload
     boot.set_components_setting(context_behavior=mode)
     h = Harness()
     agg = par.Agg()
@@ -243,9 +247,13 @@ def family_worker(w, W, payload):
         agg.nontrivial += 1
         exp = model_outcome(prog, mode)
         agg.expected[exp[0] if exp[0] != "err" else "err:" + exp[2]] += 1
-        for variant in ("tag", "dynamic"):
+        # side-<pos>-<kind>: the tag route with an unrelated Python-API render (succeeding / failing and caught) inside every
+        # component's on_render_<pos> hook (mc/prog.py side_attrs) - the page must render exactly as without it
+        sides = ["side-%s-%s" % pk for pk in (SIDE_VARIANTS if tier == "thorough" else SIDE_VARIANTS_QUICK)]
+        for variant in ["tag", "dynamic"] + sides:
             dyn = variant == "dynamic"
-            h.install(prog, dynamic=dyn)
+            extra = side_attrs(prog, *variant.split("-")[1:]) if variant.startswith("side-") else None
+            h.install(prog, dynamic=dyn, extra_attrs=extra)
             obs = h.render_page(prog, dynamic=dyn)
             boot.clear_render_registries()
             agg.transitions += 1
@@ -306,7 +314,7 @@ def run(ctx):
             if agg.failures_dropped:
                 ev.extra["failures_dropped"] = ev.extra.get("failures_dropped", 0) + agg.failures_dropped
     for mode in ("django", "isolated"):
-        agg = par.run_sharded(family_worker, (mode,))
+        agg = par.run_sharded(family_worker, (mode, ctx.tier))
         ev.add_part(f"three_level_family_{mode}", states=agg.states, transitions=agg.transitions, validated=agg.validated, nontrivial=agg.nontrivial,
                     observed_distinct=len(agg.observed), expected=agg.expected, bound={"levels": 3, "choices": "page fills x a fills (plain/alias/pass-through) x a own slots x b nested slots x flags"},
                     samples=agg.samples[:1])
@@ -334,7 +342,7 @@ def replay(ctx, case):
     boot.set_components_setting(context_behavior=mode)
     h = Harness()
     dyn = variant == "dynamic"
-    h.install(prog, dynamic=dyn)
+    h.install(prog, dynamic=dyn, extra_attrs=side_attrs(prog, *variant.split("-")[1:]) if variant.startswith("side-") else None)
     exp = model_outcome(prog, mode)
     if variant.startswith("python"):
         agg = par.Agg()
